@@ -111,6 +111,19 @@ func runC14(m *Sim) {
 			w.Advance(consts.ArchiveRate + time.Duration(m.C.Int("ms", 30))*time.Millisecond)
 		}
 		h.AfterRotations()
+		if m.C.Chance("invalid-first", 1, 4) {
+			// Requests that are refused before or by the limiter must not buy
+			// extra archives.
+			switch m.C.Int("invalid", 3) {
+			case 0:
+				n.Request("POST", "/api/v1/archive", nil)
+			case 1:
+				n.Request("GET", "/api/v1/archive", []byte("body"))
+			case 2:
+				n.Request("DELETE", "/api/v1/archive?x=1", nil)
+			}
+			m.Probe("c14.invalid-request")
+		}
 		res := &HTTPResult{}
 		// The limiter is consulted in the first step of the request, before
 		// any park: this is the admission time.
